@@ -27,6 +27,8 @@ type c17Case struct {
 	E     int      `json:"end,omitempty"`
 	Slice bool     `json:"slice,omitempty"`
 	Blank bool     `json:"blank_in_alphabet,omitempty"` // residues over all of 32..126 (minus '>')
+	Ptr   bool     `json:"pointer,omitempty"`           // write *seqio.Fasta
+	Auto  bool     `json:"auto_writer,omitempty"`       // through the auto-detecting writer
 }
 
 func c17Residues(n, salt int) []byte {
@@ -81,6 +83,9 @@ func c17Eval(c c17Case) (ok bool, sig, detail string) {
 		var werr error
 		if p, msg := engine.Safely(func() {
 			w := seqio.NewWriter(&buf, seqio.FastaFile)
+			if c.Auto {
+				w = seqio.NewWriter(&buf, seqio.DefaultFile)
+			}
 			for i, n := range c.Ns {
 				desc := c.Descs[i%len(c.Descs)]
 				data := c17Residues(n, i)
@@ -92,6 +97,9 @@ func c17Eval(c c17Case) (ok bool, sig, detail string) {
 				var seq gts.Sequence = seqio.Fasta{Desc: desc, Data: cloneBytes(data)}
 				if c.Basic {
 					seq = gts.New(desc, nil, cloneBytes(data))
+				}
+				if c.Ptr {
+					seq = &seqio.Fasta{Desc: desc, Data: cloneBytes(data)}
 				}
 				if _, err := w.WriteSeq(seq); err != nil {
 					werr = err
@@ -309,6 +317,12 @@ func init() {
 					eval(c17Case{Kind: "roundtrip", Ns: []int{n}, Descs: []string{"d e"}, CRLF: crlf}, n, n >= 1)
 				}
 				eval(c17Case{Kind: "roundtrip", Ns: []int{n}, Descs: []string{"x"}, Basic: true}, n, n >= 1)
+				if n <= 150 {
+					eval(c17Case{Kind: "roundtrip", Ns: []int{n, 3}, Descs: []string{"p q"}, Ptr: true}, n, n >= 1)
+					eval(c17Case{Kind: "roundtrip", Ns: []int{n, 3}, Descs: []string{"p q"}, Ptr: true, Auto: true}, n, n >= 1)
+					eval(c17Case{Kind: "roundtrip", Ns: []int{n, 3}, Descs: []string{"p q"}, Auto: true}, n, n >= 1)
+					eval(c17Case{Kind: "roundtrip", Ns: []int{n, 3}, Descs: []string{"p q"}, Basic: true, Auto: true}, n, n >= 1)
+				}
 				if n <= 300 {
 					eval(c17Case{Kind: "roundtrip", Ns: []int{n, n}, Descs: []string{"b"}, Blank: true}, n, n >= 1)
 					eval(c17Case{Kind: "roundtrip", Ns: []int{n}, Descs: []string{"b"}, Blank: true, CRLF: true}, n, n >= 1)
